@@ -45,6 +45,8 @@ class Prop(PropBase):
                 nfix = 2 if tier == 'quick' else 4
                 for q in range(nfix):
                     cfg = scen.rand_cfg(rng, mode=2, wait=rng.randrange(2), dense=0, pktcb=0)
+                    if q % 2 == 1:
+                        cfg.from_file = 1; cfg.wait = 0     # calibration "from file" (file missing): DIFOP still governs rpm / return mode
                     rpm1, rpm2 = rng.sample([6000, 30000, 60000, 12000, 65535], 2)
                     d1 = rng.random() < 0.5
                     d2 = d1 if rng.random() < 0.5 else (not d1)
